@@ -23,6 +23,25 @@ def one(files: Dict[str, Any], root="a.yaml", **kw) -> Dict[str, Any]:
     return cl
 
 
+def relocate(cl: Dict[str, Any], dirs: Dict[str, str], tag: str = "subdirs") -> Dict[str, Any]:
+    """the same closure with its files moved into sub-directories of the source directory (`dirs`: file -> directory,
+    default: where it is); import strings are re-spelled relative to the importing file's new directory"""
+    import os
+    where = {fn: os.path.normpath(os.path.join(dirs.get(fn, os.path.dirname(fn)), os.path.basename(fn))) for fn in cl["files"]}
+    files: Dict[str, Any] = {}
+    for fn, fs in cl["files"].items():
+        g = dict(fs)
+        if fs.get("imports"):
+            g["imports"] = [os.path.relpath(where[os.path.normpath(os.path.join(os.path.dirname(fn), i))],
+                                            os.path.dirname(where[fn]) or ".") for i in fs["imports"]]
+        files[where[fn]] = g
+    out = dict(cl)
+    out["files"] = files
+    out["root"] = where[cl["root"]]
+    out["tags"] = sorted(set(cl.get("tags", [])) | {tag})
+    return out
+
+
 # ------------------------------------------------------------------------------------------------
 # structural predicates (signatures of the open findings)
 # ------------------------------------------------------------------------------------------------
@@ -133,6 +152,18 @@ def directed() -> List[Dict[str, Any]]:
     D.append(one({"a.yaml": {"messages": [["MA", -1, None]]}}, tags=["id_conflict", "id_negative"]))
     D.append(one({"a.yaml": {"imports": ["b.yaml"], "messages": [["MA", 7700, [F("v", "int32")]]], "reserved": ["7701 to 7703"]},
                   "b.yaml": {"messages": [["MB", 7704, [F("v", "double")]]], "reserved": [7705]}}, tags=["reserved_adjacent_ok"]))
+    # files in sub-directories: `type_source` / the core mark are relative to the root file's directory, imports to the
+    # importing file's (root below its imports, imports spelled through `.` and `..`)
+    sub = one({"a.yaml": {"imports": ["b.yaml", "c.yaml"], "structs": [["SA", [F("b", "SB"), F("c", "SC_", 2)]]],
+                          "messages": [["MA", 2400, [F("s", "SA"), F("t", "MC")]]]},
+               "b.yaml": {"imports": ["c.yaml"], "structs": [["SB", [F("c", "SC_"), F("x", "int32")]]]},
+               "c.yaml": {"structs": [["SC_", [F("v", "int32")]]], "messages": [["MC", 2401, [F("v", "SC_")]]], "reserved": [2402]}},
+              tags=["paths"])
+    D.append(relocate(sub, {"b.yaml": "sub", "c.yaml": "sub/deep"}, "subdirs_below"))
+    D.append(relocate(sub, {"a.yaml": "app", "b.yaml": "lib", "c.yaml": ""}, "subdirs_root_below_imports"))
+    sp = relocate(sub, {"a.yaml": "app/x", "b.yaml": "app", "c.yaml": "lib/y"}, "subdirs_spelled_oddly")
+    sp["files"]["app/x/a.yaml"]["imports"] = ["./../b.yaml", "../../lib/../lib/y/c.yaml"]
+    D.append(sp)
     # import diamond, every section in every file
     D.append(one({"a.yaml": {"imports": ["b.yaml", "c.yaml"], "constants": [["NA", "ND + 1", 5]],
                              "messages": [["MA", 2000, [F("b", "SB"), F("c", "SC_"), F("arr", "uint16", "NA", 5)]]]},
